@@ -35,16 +35,35 @@ type vpWorld struct {
 }
 
 func vpPayloadOf(w vpWorld) []byte {
+	p, _ := vpSignPayload(w)
+	return p
+}
+
+// vpVerifyPayload: the payload Verify builds (and logs) when the signature
+// record sig is checked against world w; nil when Verify gives up before
+// building one.
+func vpVerifyPayload(sig *pipeline.Signature, w vpWorld) ([]byte, error) {
+	lg := &vpLogger{}
+	k := vpSigKey("EdDSA", 1)
+	err := Verify(context.Background(), sig, vpKeySetOf(k), &CommandStepWithInvariants{CommandStep: *w.step, RepositoryURL: w.repo},
+		WithEnv(w.penv), WithLogger(lg), WithDebugSigning(true))
+	if len(lg.payloads) == 0 {
+		return nil, err
+	}
+	return lg.payloads[len(lg.payloads)-1], err
+}
+
+func vpSignPayload(w vpWorld) ([]byte, *pipeline.Signature) {
 	lg := &vpLogger{}
 	key := vpSigKey(w.alg, 1)
-	_, err := Sign(context.Background(), key, &CommandStepWithInvariants{CommandStep: *w.step, RepositoryURL: w.repo},
+	sig, err := Sign(context.Background(), key, &CommandStepWithInvariants{CommandStep: *w.step, RepositoryURL: w.repo},
 		WithEnv(w.penv), WithLogger(lg), WithDebugSigning(true))
 	vpAssert(err == nil, "signing succeeds")
 	vpAssert(len(lg.payloads) == 1, "the payload is logged once under debug signing")
 	if len(lg.payloads) != 1 {
-		return nil
+		return nil, nil
 	}
-	return lg.payloads[0]
+	return lg.payloads[0], sig
 }
 
 func vpH_c14_payload() {
@@ -66,7 +85,7 @@ func vpH_c14_payload() {
 		}
 	}
 	w1, w2 := mk(), mk()
-	kind := vpInt(0, 17)
+	kind := vpInt(0, 21)
 	collide := kind <= 3
 	switch kind {
 	case 0: // same content, other insertion orders
@@ -118,11 +137,25 @@ func vpH_c14_payload() {
 	case 16: // plugin order differs
 		w1.step.Plugins = pipeline.Plugins{{Source: "p"}, {Source: "q"}}
 		w2.step.Plugins = pipeline.Plugins{{Source: "q"}, {Source: "p"}}
+	case 18: // a named dimension differs next to the anonymous dimension
+		vpAssume(x != c)
+		w1.step.Matrix = &pipeline.Matrix{Setup: pipeline.MatrixSetup{"": {"m"}, "os": {x}}}
+		w2.step.Matrix = &pipeline.Matrix{Setup: pipeline.MatrixSetup{"": {"m"}, "os": {c}}}
+	case 19: // anonymous-only versus anonymous plus a named dimension
+		w1.step.Matrix = &pipeline.Matrix{Setup: pipeline.MatrixSetup{"": {"m"}}}
+		w2.step.Matrix = &pipeline.Matrix{Setup: pipeline.MatrixSetup{"": {"m"}, x: {"v"}}}
+	case 20: // adjustment tuple: value moved between two dimensions
+		w1.step.Matrix = &pipeline.Matrix{Setup: pipeline.MatrixSetup{"a": {"1"}, "b": {"2"}}, Adjustments: pipeline.MatrixAdjustments{{With: pipeline.MatrixAdjustmentWith{"a": x, "b": "q"}}}}
+		w2.step.Matrix = &pipeline.Matrix{Setup: pipeline.MatrixSetup{"a": {"1"}, "b": {"2"}}, Adjustments: pipeline.MatrixAdjustments{{With: pipeline.MatrixAdjustmentWith{"a": "q", "b": x}}}}
+		vpAssume(x != "q")
+	case 21: // a pipeline variable with an empty value versus no such variable
+		w1.penv = map[string]string{"P": pv, "E": ""}
+		w2.penv = map[string]string{"P": pv}
 	case 17: // boundary shift between two pipeline env entries
 		w1.penv = map[string]string{"P": pv + x, "Q": "q"}
 		w2.penv = map[string]string{"P": pv, "Q": x + "q"}
 	}
-	p1 := vpPayloadOf(w1)
+	p1, sig1 := vpSignPayload(w1)
 	p2 := vpPayloadOf(w2)
 	if p1 == nil || p2 == nil {
 		return
@@ -131,6 +164,15 @@ func vpH_c14_payload() {
 		vpAssert(bytes.Equal(p1, p2), "re-orderings, nil/empty containers and equivalent source spellings give the identical payload")
 	} else {
 		vpAssert(!bytes.Equal(p1, p2), "any difference in the content of a signed field gives a different payload (also boundary shifts)")
+	}
+	// the verify side: the payload Verify rebuilds from a presented world
+	if vpParam("verifyside") != 0 && sig1 != nil && kind != 10 {
+		vp, verr := vpVerifyPayload(sig1, w2)
+		if collide {
+			vpAssert(vp != nil && bytes.Equal(vp, p1) && verr == nil, "Verify rebuilds the identical payload from an equivalent world and accepts it")
+		} else if vp != nil {
+			vpAssert(!bytes.Equal(vp, p1), "Verify never rebuilds the signed payload from a world whose signed content differs")
+		}
 	}
 	// determinism: signing the same world again gives the same payload
 	vpAssert(bytes.Equal(p1, vpPayloadOf(w1)), "the payload is the same on every run")
